@@ -938,6 +938,45 @@ pub fn travel_meld_scenario(name: &str, depth: usize, extra: &[Op]) -> Scenario 
     sc
 }
 
+/// A replica whose FIRST commit carries several revisions of the same objects (three documents submitted before
+/// committing), then melded to / copied to / reopened by another replica.
+pub fn first_commit_chains_scenario(name: &str, depth: usize, extra: &[Op]) -> Scenario {
+    let docs = vec![json!({"l♭":[x(), y()]}), json!({"l♭":[x2(), y(), z()]}), json!({"l♭":[{"_id":"x","v":3}, z()], "s":"t"}), json!({"l♭":[y()]})];
+    let mut alphabet = vec![Op::Upd(0, 0), Op::Upd(0, 1), Op::Upd(0, 2), Op::Upd(0, 3), Op::Commit(0, 0), Op::Commit(0, 1), Op::Sync(1, 0), Op::Meld(1, 0), Op::Reopen(1), Op::Reopen(0), Op::Sync(0, 1)];
+    alphabet.extend_from_slice(extra);
+    Scenario {
+        name: name.to_string(),
+        nrep: 2,
+        menu: menu(docs),
+        prologue: vec![],
+        alphabet,
+        key_opts: KeyOpts::default(),
+        max_depth: depth,
+        track: true,
+        order: None,
+    }
+}
+
+/// Two concurrent branches of an array whose LAST edit scripts are byte-identical ("delete one element at index
+/// 0") although they apply to different parents.
+pub fn same_last_patch_scenario(name: &str, depth: usize, extra: &[Op]) -> Scenario {
+    let w = || json!({"_id":"w","v":1});
+    let docs = vec![json!({"l♭":[x(), y()]}), json!({"l♭":[x(), y(), z()]}), json!({"l♭":[y(), z()]}), json!({"l♭":[x(), y(), w()]}), json!({"l♭":[y(), w()]}), json!({"l♭":[y()]})];
+    let mut alphabet = vec![Op::Sync(0, 1), Op::Sync(1, 0), Op::Commit(0, 0), Op::Commit(1, 0), Op::Upd(0, 5), Op::Reopen(0), Op::Snapshot(1), Op::Resolve(1, 0, 0), Op::Resolve(1, 0, 1)];
+    alphabet.extend_from_slice(extra);
+    Scenario {
+        name: name.to_string(),
+        nrep: 2,
+        menu: menu(docs),
+        prologue: vec![Op::Upd(0, 0), Op::Commit(0, 0), Op::Sync(1, 0), Op::Upd(0, 1), Op::Commit(0, 0), Op::Upd(0, 2), Op::Commit(0, 0), Op::Upd(1, 3), Op::Commit(1, 0), Op::Upd(1, 4), Op::Commit(1, 0)],
+        alphabet,
+        key_opts: KeyOpts::default(),
+        max_depth: depth,
+        track: true,
+        order: None,
+    }
+}
+
 pub fn combo_scenarios(thorough: bool) -> Vec<Scenario> {
     let d = |q: usize, t: usize| if thorough { t } else { q };
     vec![
@@ -955,6 +994,14 @@ pub fn combo_scenarios(thorough: bool) -> Vec<Scenario> {
         independent_origins_scenario("combo-independent-origins", d(4, 5), &[]),
         shared_storage_scenario("combo-two-instances-on-one-storage", d(4, 5), &[]),
         travel_meld_scenario("combo-meld-with-a-travelled-replica", d(3, 4), &[]),
+        same_last_patch_scenario("combo-branches-with-identical-last-patch", d(3, 4), &[]),
+        first_commit_chains_scenario("combo-first-commit-with-several-revisions", d(5, 6), &[]),
+        {
+            // the same under a reversed hash-iteration order (the order of the change records of one object)
+            let mut sc = first_commit_chains_scenario("combo-first-commit-with-several-revisions-reversed-hash-order", d(5, 6), &[]);
+            sc.order = Some(melda::verif_hooks::order::Mode::Reverse);
+            sc
+        },
     ]
 }
 
